@@ -18,8 +18,14 @@ RxCtors == {"literal", "RegExp_str", "new_RegExp_str", "new_RegExp_regex", "RegE
 RxLoops == {"rx_" \o a \o "_" \o c : a \in RxApis, c \in RxCtors}
 \* regex_short_runs / regex_many_attempts: ONE regex call whose work is spread over very many short matcher runs
 \* (a lookbehind tried from every start position; a search whose every attempt fails after ~20 steps)
-BaseLoops == {"while", "for", "dowhile", "labelled", "recursion", "mutual", "regex_backtrack", "regex_loop", "regex_lookahead",
-              "nested_eval_loop", "regex_short_runs", "regex_many_attempts", "regex_lookbehind_in_loop"}
+\* One keep-running construct per kind of control transfer that can close a cycle in the interpreter: backward jump (while / for /
+\* do-while / labelled continue), plain call, method call, construction with new, iterator step over a growing array. A limit check
+\* placed only on some kinds of transfer ("safepoints") leaves the other cycles unbounded, so every kind has a construct whose
+\* cycle contains no other kind.
+RecLoops == {"recursion", "mutual", "ctor_recursion", "ctor_mutual", "method_recursion", "ctor_method_mutual"}
+BaseLoops == {"while", "for", "dowhile", "labelled", "regex_backtrack", "regex_loop", "regex_lookahead",
+              "nested_eval_loop", "regex_short_runs", "regex_many_attempts", "regex_lookbehind_in_loop",
+              "forof_growing", "switch_continue", "logical_for"} \cup RecLoops
 \* a value created by one evaluation and used by a later one on the same context, after the first one's deadline is
 \* long past on the (virtual) clock: the later evaluation has its own budget and must finish normally
 CarryLoops == {"carry_regex_literal", "carry_regex_ctor", "carry_regex_in_closure", "carry_function", "carry_string_method_regex",
@@ -42,7 +48,7 @@ Cases == {c \in [loop : Loops, place : Places, wrap : Wraps, t : Ts, m : Mems, f
             /\ (c.finite => c.wrap \in {"bare", "try_catch"} /\ c.m = 0)
             /\ (c.loop \in CarryLoops => c.finite /\ c.place = "top" /\ c.wrap = "bare" /\ c.m = 0)
             /\ (c.loop \in RxLoops => ~c.finite /\ c.place \in {"top", "function", "cb_map", "cb_sort", "getter", "valueOf", "eval", "call"})
-            /\ (c.loop \in {"recursion", "mutual"} => c.m = 0)}     \* with M set, runaway recursion ends in MemoryLimitError first (C02)
+            /\ (c.loop \in RecLoops => c.m = 0)}     \* with M set, runaway recursion ends in MemoryLimitError first (C02)
 
 VARIABLES ph, cur, rec_i
 vars == <<ph, cur, rec_i>>
